@@ -442,8 +442,10 @@ def handleImport : Handler := fun inp out => do
         let onlyDates := cols.all (fun c => c = "fu" || c = "upd")
         if cols.contains "meta" then
           sigs := sigs ++ [("C11", "C11:import-drops-chart-default-metadata"), ("C08", "C08:replay-drops-chart-default-metadata")]
-        if cols.contains "fu" || cols.contains "upd" then
+        if cols.contains "fu" then
           sigs := sigs ++ [("C11", "C11:import-moves-account-dates"), ("C08", "C08:replay-moves-account-dates")]
+        else if cols.contains "upd" then
+          sigs := sigs ++ [("C11", "C11:import-restamps-account-updated-at"), ("C08", "C08:replay-restamps-account-updated-at")]
         if !(cols.contains "meta") && !onlyDates then
           fails := fails ++ [("C11", s!"copy differs from source in accounts columns {cols}"), ("C08", s!"replay differs in accounts columns {cols}")]
       else fails := fails ++ [("C11", s!"copy differs from source in {d}"), ("C08", s!"replay differs in {d}")]
